@@ -301,6 +301,7 @@ struct BodyVisitor<'c, 'a> {
     loops_done: Vec<usize>,
     inner_done: Vec<String>,
     closures_done: Vec<usize>,
+    let_as_done: Vec<bool>,
     fn_path: String,
 }
 
@@ -398,6 +399,40 @@ impl<'c, 'a, 'ast> Visit<'ast> for BodyVisitor<'c, 'a> {
                             AnchorKind::After => self.cx.edit(e, e, format!("\n{}", text), -50, "R7-splice"),
                             AnchorKind::AtEnd => {}
                         }
+                    }
+                }
+            }
+            // R19 (opt-in `//@ let-as <var> <replacement>` + quoted expected initialiser): `let <var> = <init>;` -> `let <var> = <replacement>;`.
+            // <replacement> calls a helper of the template whose external body is <init> itself (executed code unchanged) and whose contract is the
+            // ASSUMED specification of that iterator chain (generic `IntoIterator` / `map(closure)` / `collect`, which this Verus cannot carry through
+            // type parameters). The rewrite is refused unless the whitespace-stripped text of <init> equals the quoted text: any change of the real
+            // initialiser makes the run "undecided" (exit 2) instead of silently keeping the assumption. The replaced text is not visited.
+            if let Stmt::Local(l) = st {
+                let name = match &l.pat {
+                    syn::Pat::Ident(pi) => Some(pi.ident.to_string()),
+                    syn::Pat::Type(pt) => match &*pt.pat {
+                        syn::Pat::Ident(pi) => Some(pi.ident.to_string()),
+                        _ => None,
+                    },
+                    _ => None,
+                };
+                if let Some(k) = name.and_then(|n| self.d.let_as.iter().position(|la| la.var == n)) {
+                    if !self.let_as_done[k] {
+                        let la = &self.d.let_as[k];
+                        let init = l.init.as_ref().unwrap_or_else(|| die(&format!("let-as: `let {}` has no initialiser in {}", la.var, self.fn_path)));
+                        if init.diverge.is_some() {
+                            die(&format!("let-as: `let {} .. else` is not supported in {}", la.var, self.fn_path));
+                        }
+                        let (is, ie) = self.cx.f.range(init.expr.span());
+                        let strip = |t: &str| t.chars().filter(|c| !c.is_whitespace()).collect::<String>();
+                        let got = strip(&self.cx.f.text[is..ie]);
+                        let want = strip(&la.expect.join(" "));
+                        if want.is_empty() || got != want {
+                            die(&format!("let-as: the initialiser of `{}` in {} differs from the text the assumed contract was written for", la.var, self.fn_path));
+                        }
+                        self.cx.edit(is, ie, la.call.clone(), 0, "R19-let-as");
+                        self.let_as_done[k] = true;
+                        continue;
                     }
                 }
             }
@@ -738,6 +773,7 @@ fn process_fn(cx: &mut Ctx, sig: &syn::Signature, block: &Block, d: &FnDirective
         loops_done: vec![],
         inner_done: vec![],
         closures_done: vec![],
+        let_as_done: vec![false; d.let_as.len()],
         fn_path: fn_path.to_string(),
     };
     v.visit_block(block);
@@ -755,6 +791,11 @@ fn process_fn(cx: &mut Ctx, sig: &syn::Signature, block: &Block, d: &FnDirective
     for (k, a) in d.anchors.iter().enumerate() {
         if !v.anchor_done[k] {
             die(&format!("lost anchor `{}` #{} in {}", a.pat, a.nth, fn_path));
+        }
+    }
+    for (k, la) in d.let_as.iter().enumerate() {
+        if !v.let_as_done[k] {
+            die(&format!("lost let-as `{}` in {}", la.var, fn_path));
         }
     }
     for n in d.loops.keys() {
